@@ -2,6 +2,37 @@
 # are listed in CLAIMED; everything else must have a reason in NOT_APPLICABLE.
 
 CLAIMED = {
+    "C03": dict(
+        level="other",
+        text="Decides the structural clauses of validity: (R3.1) every XML template the library parses is evaluated abstractly to a "
+             "skeleton with alternation/iteration/holes and each element's child-sequence language is tested for inclusion in its "
+             "schema content model, attributes for name / requiredness / literal value; (R3.2) the shipped template XML and all "
+             "XML members of default.pptx validate with the same automata (the valid starting point); (R3.4) raw attribute "
+             "writes are constant and valid; (R3.5a) no validity-relevant mutation precedes an explicit refusal on any path "
+             "(statement-level may-precede analysis over typed effect summaries); (R3.5b) no element that is invalid as created "
+             "is attached before a completing store that can reject its value, nor left incomplete. Child positions of later "
+             "insertions are C10, value spaces C11, chart templates C07. 14 genuine refusal-path defects are carried as known "
+             "findings. NOT decided: validity under arbitrary operation histories (cardinality).",
+        technique="static analysis: abstract string evaluation -> XML skeleton -> regular-language inclusion in XSD content-model "
+                  "automata; effect summaries over a typed call graph with statement-level may-precede (mutation before raise); "
+                  "typestate rule for attach-before-initialise",
+        design="DESIGN.md §4 C03, appendix B.3-B.4",
+    ),
+    "C07": dict(
+        level="other",
+        text="The eight chart XML writers are specialised to each of the 29 chart types and evaluated abstractly; series and "
+             "point loops become Kleene stars and data-dependent branches alternations, so one inclusion test per element covers "
+             "every series count, point count, category shape and missing-value pattern (R7.1, c:chartSpace down to c:pt, "
+             "2 789 template elements). Twin writers (element vs *_xml text) must evaluate to the same skeleton (R7.2); "
+             "rewriters remove/insert the same data children through generated schema-positioned inserters and touch nothing "
+             "else (R7.3); idx/order come from series.index resp. max-over-all-plots+1 (R7.4); c:ptCount holes count the "
+             "sequence the sibling c:pt loop iterates (R7.5, category counts by stated premise). Known findings: negative "
+             "axis-id literals, c:smooth in radar series. NOT decided: values read back through the API, date serials, "
+             "formatting survival under replace_data histories.",
+        technique="static analysis: abstract evaluation of the string-building writers per chart type, XML skeleton language "
+                  "inclusion in dml-chart.xsd automata, structural twin/rewriter/allocator comparison",
+        design="DESIGN.md §4 C07",
+    ),
     "C10": dict(
         level="proof",
         text="Exhaustive decision over a finite obligation set: every child-element declaration (successors tuple) of every "
@@ -51,8 +82,8 @@ CLAIMED = {
 _NOT_BUILT = "decidable structural clause designed in DESIGN.md but its checker is not built yet"
 
 NOT_APPLICABLE = {
-    "C01": _NOT_BUILT, "C02": _NOT_BUILT, "C03": _NOT_BUILT, "C04": _NOT_BUILT, "C05": _NOT_BUILT,
-    "C06": _NOT_BUILT, "C07": _NOT_BUILT, "C08": _NOT_BUILT, "C09": _NOT_BUILT,
+    "C01": _NOT_BUILT, "C02": _NOT_BUILT, "C04": _NOT_BUILT, "C05": _NOT_BUILT,
+    "C06": _NOT_BUILT, "C08": _NOT_BUILT, "C09": _NOT_BUILT,
     "C12": _NOT_BUILT, "C13": _NOT_BUILT, "C14": _NOT_BUILT, "C15": _NOT_BUILT,
     "C16": _NOT_BUILT, "C17": _NOT_BUILT, "C18": _NOT_BUILT,
     "C19": "part-name arithmetic is an equation between values of pure string functions (posixpath "
